@@ -591,7 +591,7 @@ def past1(ctx):
         ctx.missing('push', 'no push into Vec<RecordMeta> found')
 
 
-@rule('PAST2', ['C04'], floor=1, template='guard-dominates-use')
+@rule('PAST2', ['C04', 'C01', 'C02'], floor=1, template='guard-dominates-use')
 def past2(ctx):
     """append: an explicit position below the next position never reaches the WAL."""
     n = 0
@@ -834,10 +834,9 @@ def ma(ctx):
                     out.add(cs.path)
         return out
 
-    def terms_of(op):
-        """accounting terms that flow into operand `op` of MemQueues::size: calls made here, and calls made by the
-        closures whose value (a map/fold adaptor argument) flows into it"""
-        back = fl.backward(set(fl.op_nodes(op)))
+    def terms_of_nodes(back):
+        """accounting terms that flow into the given flow nodes of MemQueues::size: calls made here, and calls made by
+        the closures whose value (a map/fold adaptor argument) flows into them"""
         out = call_terms(b, back, fl)
         for (pp, fj) in b.fn_values:
             node = fj.get('node')
@@ -856,19 +855,19 @@ def ma(ctx):
     ok_u = ok_c = ok_t = False
     used_key, alloc_key = '0', '1'
     U, C = {'String::len', 'mem::queue::MemQueue::size'}, {'String::capacity', 'mem::queue::MemQueue::capacity'}
-    for (p, kind, data) in b.defs.get(0, []):
-        # the pair of figures: a tuple, or a two-field struct (`MemUsage { used_bytes, allocated_bytes }`); which
-        # component is which is decided by what it is made of, not by its position or name
-        if kind == 'assign' and data['rv']['k'] == 'agg' and data['rv'].get('agg') in ('tuple', 'adt') and not data['rv'].get('is_enum') and len(data['rv']['ops']) == 2:
-            keys = data['rv'].get('fields') or ['0', '1']
-            tt = [terms_of(o) for o in data['rv']['ops']]
-            iu = [i for i in (0, 1) if U <= tt[i] and not (C & tt[i])]
-            ic = [i for i in (0, 1) if C <= tt[i] and not (U & tt[i])]
-            ok_u = len(iu) == 1
-            ok_c = len(ic) == 1 and ic != iu
-            ok_t = ok_u and ok_c
-            if ok_t:
-                used_key, alloc_key = keys[iu[0]], keys[ic[0]]
+    # the pair of figures: a tuple, or a two-field struct (`MemUsage { used_bytes, allocated_bytes }`), built in one
+    # aggregate or filled field by field; which component is which is decided by what it is made of, not by its
+    # position or name
+    keys = sorted(k for k in fl.fields.get(0, ()) if '.' not in k)
+    if len(keys) == 2:
+        tt = [terms_of_nodes(fl.backward({('lf', 0, k)})) for k in keys]
+        iu = [i for i in (0, 1) if U <= tt[i] and not (C & tt[i])]
+        ic = [i for i in (0, 1) if C <= tt[i] and not (U & tt[i])]
+        ok_u = len(iu) == 1
+        ok_c = len(ic) == 1 and ic != iu
+        ok_t = ok_u and ok_c
+        if ok_t:
+            used_key, alloc_key = keys[iu[0]], keys[ic[0]]
     ctx.check(ok_u and ok_c, 'name-pair', b.span, 'used adds name.len() + queue.size(); allocated adds name.capacity() + queue.capacity()', 'queue names are not accounted as len() in used and capacity() in allocated')
     # tuple order and mapping in resource_usage
     ru = [x for x in root_bodies(ctx) if x.ret_ty == 'ResourceUsage']
@@ -1019,7 +1018,10 @@ def ma5(ctx):
     t = th[0]
     drains = [cs.point for cs in t.calls if re.search(r'Vec::<mem::queue::RecordMeta>::drain', cs.name)]
     bufs = [cs.point for cs in t.calls if cs.node is not None and ctx.f.bodies[cs.node].path == 'mem::rolling_buffer::RollingBuffer::truncate_head']
-    paired = bool(drains) and bool(bufs) and all(any(t.dominates(d, x) or t.dominates(x, d) for x in bufs) for d in drains)
+    # every drain of the metas is accompanied by the payload cut on EVERY path: either the cut came first, or no return is
+    # reached from the drain without passing it (a "not worth compacting" fast path keeps dead bytes accounted as used)
+    rets_t = t.return_points()
+    paired = bool(drains) and bool(bufs) and all(any(t.dominates(x, d) for x in bufs) or not any(r_ in t.reach_after(d, avoid=set(bufs)) for r_ in rets_t) for d in drains)
     rb = ctx.fn('mem::rolling_buffer::RollingBuffer::truncate_head')
     dr = bool(rb) and any(re.search(r'VecDeque::<u8>::drain', cs.name) for cs in rb[0].calls)
     must_dr = False
